@@ -1,6 +1,6 @@
 // C18 harness: "shared const objects are thread-safe with schedule-independent results".
 //
-//   c18_shared <quick|thorough|tsan> [only]   only in {loop,user,tune,fit,tieprobe}[:<scenario number>]; default: all except tieprobe;
+//   c18_shared <quick|thorough|tsan> [only]   only in {loop,user,tune,fit,wfit,tieprobe}[:<scenario number>]; default: all except tieprobe;
 //                                             tsan = reduced scenario set for the ThreadSanitizer run of the quick tier
 //
 // Everything random derives from VERIF_SEED (vh::env_seed()); a scenario's generator is a hash of (seed, family, scenario
@@ -43,6 +43,9 @@
 //     validation errors within 1e-5 = result=tieflip; gboost differences are CAND lines, result=cand]. thorough: (P,P) repeated
 //     under restricted CPU affinity.
 //     NB: gboost::max_rounds has the domain [10, 1e6]: 10 rounds are used (the smallest admissible value).
+//
+//  WFIT <id> learner=<..> threads=<P> n=<samples> features=<F> dup=<base:copy:mode,..> ref=<features>@<score> got=<features>@<score> result=<same|tie|diff>
+//     weak-learner fits on near-duplicate features, dataset pools of 2,3,4,8,16 workers vs one worker (see run_wfit)
 //
 //  TIEPROBE run=<i> threads=<t> features=<list> / TIEPROBE-SUMMARY distinct_feature_sets=<k>   (only on request, never FAIL)
 //
@@ -1759,6 +1762,160 @@ void run_fit(const uint64_t seed, const long scenario, const bool thorough, cons
 }
 
 // ------------------------------------------------------------------------------------------------------------------
+// (4') WFIT: weak-learner fits (per-thread caches + min_reduce) on datasets with NEAR-DUPLICATE features -- scores that differ
+//      by rounding only (a feature and a copy scaled by 1 +- 2^-30 / perturbed by 1e-9) without being exactly tied, the two
+//      copies at arbitrary positions (so that they land in the same or in different chunks depending on the pool size).
+//      The selection is a minimum w.r.t. one strict order (C18_fit_select_src_schedule_independent): the selected features
+//      AND the score must be bit-identical to the one-worker fit for dataset pools of 2, 3, 4, 8, 16 workers. An exact tie
+//      (same score bit for bit, other feature) is the known tie case (C18_fit_select_tie_refuted): result=tie, not a failure.
+// ------------------------------------------------------------------------------------------------------------------
+long g_wfits = 0, g_wties = 0;
+
+void run_wfit(const uint64_t seed, const long scenario)
+{
+    vh::rng_t  rng(mix(seed ^ 0x450B450BULL, static_cast<uint64_t>(scenario)));
+    const auto n      = static_cast<tensor_size_t>(rng.range(30, 150));
+    const auto F      = static_cast<size_t>(rng.range(3, 10));
+    const auto nclass = static_cast<size_t>(rng.range(0, 2));
+    const auto ndup   = static_cast<int>(rng.range(1, 2));
+    const auto noise  = rng.range(0, 2) == 0 ? 0.3 : 0.02;
+    const auto delay  = static_cast<int>(rng.range(0, 2));
+    src_t      d;
+    d.n = n, d.nscalar = F, d.nclass = nclass;
+    for (size_t f = 0; f < F; ++f)
+    {
+        vec_t c(static_cast<size_t>(n));
+        for (auto& v : c) v = rng.unit() * 4.0 - 2.0;
+        d.cols.push_back(c);
+    }
+    std::string dups;
+    size_t      base = 0;
+    for (int k = 0; k < ndup; ++k)
+    {
+        const auto pa   = k == 0 ? static_cast<size_t>(rng.range(0, static_cast<int64_t>(F) - 1)) : base;
+        auto       pb   = static_cast<size_t>(rng.range(0, static_cast<int64_t>(F) - 2));
+        if (pb >= pa) ++pb;
+        const auto mode = static_cast<int>(rng.range(0, 5));
+        base            = pa;
+        for (size_t i = 0; i < static_cast<size_t>(n); ++i)
+        {
+            const auto x = d.cols[pa][i];
+            const auto u = rng.unit() * 2.0 - 1.0;
+            switch (mode)
+            {
+            case 0: d.cols[pb][i] = x * (1.0 + 0x1p-30); break;
+            case 1: d.cols[pb][i] = x * (1.0 + 1e-9 * u); break;
+            case 2: d.cols[pb][i] = x + 1e-9 * u; break;
+            case 3: d.cols[pb][i] = x; break; // exact copy: exact tie
+            case 4: d.cols[pb][i] = x * (1.0 - 0x1p-30); break;
+            default: d.cols[pb][i] = x + 1e-6 * u; break;
+            }
+        }
+        dups += (dups.empty() ? "" : ",") + std::to_string(pa) + ":" + std::to_string(pb) + ":" + std::to_string(mode);
+    }
+    for (size_t f = 0; f < nclass; ++f)
+    {
+        const auto k = static_cast<int>(rng.range(2, 4));
+        d.classes.push_back(k);
+        vec_t c(static_cast<size_t>(n));
+        for (auto& v : c) v = static_cast<double>(rng.range(0, k - 1));
+        if (f == 1 && rng.range(0, 1) == 0)
+        {
+            // a near-duplicate categorical feature: the first one with a few labels changed
+            d.classes[1] = d.classes[0];
+            c            = d.cols[F];
+            for (int q = 0; q < 2; ++q) c[static_cast<size_t>(rng.range(0, n - 1))] = static_cast<double>(rng.range(0, d.classes[0] - 1));
+        }
+        d.cols.push_back(c);
+    }
+    // residuals: an affine function of the duplicated feature (+ a class effect) + noise
+    const double w = (rng.unit() + 0.5) * (rng.range(0, 1) ? 1.0 : -1.0), b = rng.unit() - 0.5;
+    vec_t        t(static_cast<size_t>(n));
+    tensor4d_t   gradients(n, 1, 1, 1);
+    for (size_t i = 0; i < static_cast<size_t>(n); ++i)
+    {
+        t[i] = w * d.cols[base][i] + b + (nclass > 0 ? 0.4 * d.cols[F][i] : 0.0) + noise * (rng.unit() * 2.0 - 1.0);
+        gradients(static_cast<tensor_size_t>(i), 0, 0, 0) = t[i];
+    }
+    d.cols.push_back(t);
+    d.desc = "data(near-duplicates,n=" + std::to_string(n) + ",scalar=" + std::to_string(F) + ",sclass=" + std::to_string(nclass) + ",dup=" + dups + ",noise=" + vh::hexf(noise) + ")";
+    finalize(d);
+    indices_t samples = arange(0, n);
+    if (rng.range(0, 2) == 0)
+    {
+        std::vector<tensor_size_t> idx;
+        for (tensor_size_t i = 0; i < n; ++i)
+            if (rng.range(0, 3) != 0) idx.push_back(i);
+        while (idx.size() < 10) idx.push_back(static_cast<tensor_size_t>(idx.size()));
+        samples = mk_indices(idx);
+    }
+    const auto ctx = seedctx("wfit", scenario) + " " + d.desc + " samples=" + std::to_string(samples.size()) + " delay=" + std::to_string(delay);
+
+    static const size_t pools[] = {1, 2, 3, 4, 8, 16};
+    std::vector<std::unique_ptr<dataset_t>> datasets;
+    for (const auto P : pools) datasets.push_back(make_dataset(d, P));
+
+    struct wout_t { double score{0}; std::vector<tensor_size_t> features; vec_t pred; std::string exc; };
+    const auto fit_one = [&](const std::string& id, const dataset_t& dataset)
+    {
+        wout_t o;
+        try
+        {
+            const auto base_id = id == "dtree1" ? std::string("dtree") : id;
+            auto       wl      = wlearner_t::all().get(base_id);
+            if (id == "dtree1") wl->parameter("wlearner::dtree::max_depth") = 1;
+            o.score = wl->fit(dataset, samples, gradients);
+            if (o.score != wlearner_t::no_fit_score())
+            {
+                const auto f = wl->features();
+                o.features.assign(f.data(), f.data() + f.size());
+                tensor4d_t out(samples.size(), 1, 1, 1);
+                out.zero();
+                wl->predict(dataset, samples, out.tensor());
+                o.pred.assign(out.data(), out.data() + out.size());
+            }
+        }
+        catch (const std::exception& e) { o.exc = e.what(); }
+        return o;
+    };
+    static const char* const learners[] = {"affine", "stump", "hinge", "dense-table", "kbest-table", "ksplit-table", "dstep-table", "dtree1"};
+    for (const auto* const learner : learners)
+    {
+        g_delay_level.store(0);
+        const auto ref = fit_one(learner, *datasets[0]);
+        for (size_t k = 1; k < datasets.size(); ++k)
+            for (int rep = 0; rep < 2; ++rep)
+            {
+                g_delay_level.store(rep == 0 ? delay : 2 - delay);
+                g_sched_seed.store(rng.next());
+                const auto o = fit_one(learner, *datasets[k]);
+                g_delay_level.store(0);
+                const auto  lctx = ctx + " learner=" + learner + " threads=" + std::to_string(pools[k]) + " rep=" + std::to_string(rep);
+                const char* result = "same";
+                if (o.exc != ref.exc) { result = "diff"; fail("wfit", "exception `" + o.exc + "` vs `" + ref.exc + "` with one worker", lctx); }
+                else if (!same_val(o.score, ref.score))
+                {
+                    result = "diff";
+                    fail("wfit", "score " + vh::hexf(o.score) + " on feature(s) " + il(mk_indices(o.features)) + " with " + std::to_string(pools[k]) + " dataset workers, " +
+                                     vh::hexf(ref.score) + " on feature(s) " + il(mk_indices(ref.features)) + " with one: the selection is not the minimum w.r.t. one order", lctx);
+                }
+                else if (o.features != ref.features) { result = "tie"; ++g_wties; } // exactly the same score on another feature
+                else if (first_diff(o.pred, ref.pred) != -1)
+                {
+                    result = "diff";
+                    fail("wfit", "same score and feature(s) " + il(mk_indices(o.features)) + " but different predictions than with one worker", lctx);
+                }
+                if (rep == 0 || std::string(result) != "same")
+                    emit("WFIT " + std::to_string(g_wfits) + " learner=" + learner + " threads=" + std::to_string(pools[k]) + " n=" + std::to_string(samples.size()) + " features=" +
+                         std::to_string(F + nclass) + " dup=" + dups + " ref=" + il(mk_indices(ref.features)) + "@" + vh::hexf(ref.score) + " got=" + il(mk_indices(o.features)) + "@" +
+                         vh::hexf(o.score) + " result=" + result);
+                ++g_wfits;
+            }
+    }
+    ++g_scenarios;
+}
+
+// ------------------------------------------------------------------------------------------------------------------
 // (5) TIEPROBE (on request only, never FAIL): two identical feature columns have exactly the same score; which of them a
 //     weak learner selects depends on which worker evaluated which (C18_fit_select_tie_refuted, notes/C10.md F4)
 // ------------------------------------------------------------------------------------------------------------------
@@ -1823,6 +1980,7 @@ int main(int argc, char** argv)
     const long n_predict = thorough ? 24 : (reduced ? 2 : 4);
     const long n_tune    = thorough ? 200 : (reduced ? 8 : 24);
     const long n_fit     = thorough ? 80 : (reduced ? 6 : 12);
+    const long n_wfit    = thorough ? 1500 : (reduced ? 30 : 150);
     const long rounds    = thorough ? 6 : 1; // passes over the solver / loss ids
 
     if (want("loop"))
@@ -1854,6 +2012,9 @@ int main(int argc, char** argv)
     if (want("fit"))
         for (long k = 0; k < n_fit; ++k)
             if (sel(k)) run_fit(seed, k, thorough, reduced);
+    if (want("wfit"))
+        for (long k = 0; k < n_wfit; ++k)
+            if (sel(k)) run_wfit(seed, k);
     if (want("tieprobe")) run_tieprobe(seed);
 
     if (tdir != nullptr)
@@ -1862,6 +2023,6 @@ int main(int argc, char** argv)
         std::filesystem::remove_all(tdir, ec);
     }
     emit("DONE scenarios=" + std::to_string(g_scenarios) + " fails=" + std::to_string(g_fails) + " cands=" + std::to_string(g_cands) + " loops=" + std::to_string(g_loops) + " users=" + std::to_string(g_users) +
-         " tunes=" + std::to_string(g_tunes) + " fits=" + std::to_string(g_fits));
+         " tunes=" + std::to_string(g_tunes) + " fits=" + std::to_string(g_fits) + " wfits=" + std::to_string(g_wfits) + " wties=" + std::to_string(g_wties));
     return 0;
 }
